@@ -28,19 +28,19 @@ type term struct {
 }
 
 func propMulti(t *rapid.T) {
-	n := rapid.SampledFrom([]int{0, 1, 2, 2, 3, 3, 4, 5, 6, 8, 12}).Draw(t, "len")
+	n := gen.Sampled([]int{0, 1, 2, 2, 3, 3, 4, 5, 6, 8, 12}).Draw(t, "len")
 	if rapid.IntRange(0, 40).Draw(t, "big") == 0 {
-		n = rapid.SampledFrom([]int{17, 33}).Draw(t, "biglen")
+		n = gen.Sampled([]int{17, 33}).Draw(t, "biglen")
 	}
 	terms := make([]term, n)
 	feats := map[string]bool{}
 	for i := range terms {
 		how := "fresh"
 		if i > 0 {
-			how = rapid.SampledFrom([]string{"fresh", "fresh", "same-point", "neg-point", "same-point-neg-scalar", "same-object",
+			how = gen.Sampled([]string{"fresh", "fresh", "same-point", "neg-point", "same-point-neg-scalar", "same-object",
 				"cancel-all", "zero-scalar", "identity-point", "double-of-prev"}).Draw(t, fmt.Sprintf("how%d", i))
 		} else {
-			how = rapid.SampledFrom([]string{"fresh", "fresh", "zero-scalar", "identity-point"}).Draw(t, "how0")
+			how = gen.Sampled([]string{"fresh", "fresh", "zero-scalar", "identity-point"}).Draw(t, "how0")
 		}
 		tm := term{how: how, dupP: -1, dupS: -1}
 		j := 0
@@ -90,7 +90,7 @@ func propMulti(t *rapid.T) {
 		fmt.Fprintf(&key, "%x*%x,", tm.s, tm.p.Compressed())
 	}
 	vartime := rapid.Bool().Draw(t, "vartime")
-	rk := rapid.SampledFrom([]string{"fresh", "zero-value", "input"}).Draw(t, "rcv")
+	rk := gen.Sampled([]string{"fresh", "zero-value", "input"}).Draw(t, "rcv")
 	var rcv *secp256k1.Point
 	rIdx := -1
 	switch {
@@ -187,7 +187,7 @@ func propDouble(t *rapid.T) {
 	u2 := gen.Int256(t, ref.N, "u2")
 	pc := gen.Point(t, "P")
 	p := pc.P
-	rel := rapid.SampledFrom([]string{"independent", "independent", "u2P=-u1G", "u2P=u1G", "P=G", "P=-G", "P=O", "u1=0", "u2=0", "both0", "u1=-u2,P=G"}).Draw(t, "rel")
+	rel := gen.Sampled([]string{"independent", "independent", "u2P=-u1G", "u2P=u1G", "P=G", "P=-G", "P=O", "u1=0", "u2=0", "both0", "u1=-u2,P=G"}).Draw(t, "rel")
 	switch rel {
 	case "u2P=-u1G", "u2P=u1G":
 		// P = k*G for a known k: u2 = -+u1/k
